@@ -453,7 +453,7 @@ const NAMES: &[&str] = &["a", "b1", "foo", "A", "Bar", "_", "__typename", "_x9",
 const TYPE_NAMES: &[&str] = &["Int", "String", "A", "Bar", "T_1", "on", "query", "type", "null", "true", "ID", "Float", "on1", "true1", "null0", "type9", "false_2", "extend3"];
 const LOCS: &[&str] = &["QUERY", "MUTATION", "SUBSCRIPTION", "FIELD", "FRAGMENT_DEFINITION", "FRAGMENT_SPREAD", "INLINE_FRAGMENT", "VARIABLE_DEFINITION",
     "SCHEMA", "SCALAR", "OBJECT", "FIELD_DEFINITION", "ARGUMENT_DEFINITION", "INTERFACE", "UNION", "ENUM", "ENUM_VALUE", "INPUT_OBJECT", "INPUT_FIELD_DEFINITION"];
-const STRS: &[&str] = &["\"\"", "\"s\"", "\"a b\"", "\"q\\\"q\"", "\"\\u00e9\\n\\t\"", "\"é日本😀\"", "\"\\\\ \\/ \\b\\f\\r\"", "\"\\u{1F600}\"", "\"\\u{e9}x\"", "\"#not a comment\"", "\"a,b\""];
+const STRS: &[&str] = &["\"\"", "\"s\"", "\"a b\"", "\"q\\\"q\"", "\"\\u00e9\\n\\t\"", "\"é日本😀\"", "\"\\\\ \\/ \\b\\f\\r\"", "\"\\u{1F600}\"", "\"\\u{e9}x\"", "\"\\uD83D\\uDE00\"", "\"a\\uDBFF\\uDFFFb\\uD83D\\uDE00\"", "\"\\u{10FFFF}\"", "\"\\u{000000041}\"", "\"\\uD7FF\\uE000\"", "\"#not a comment\"", "\"a,b\""];
 const BLOCKS: &[&str] = &["\"\"\"\"\"\"", "\"\"\"b\"\"\"", "\"\"\"two\nlines\"\"\"", "\"\"\"\n  indented\n    more\n  \"\"\"", "\"\"\"esc \\\"\"\" q\"\"\"", "\"\"\" \"one\" \"\"two \"\"\"",
     "\"\"\"\r\n\tcrlf\r\n\"\"\"", "\"\"\"é 😀 # , \"\"\"", "\"\"\"\n\n  x\n\n\"\"\""];
 const NUMS: &[&str] = &["0", "-0", "7", "-12", "1234567890123456789012", "1.5", "-0.25", "2e3", "1.0E-2", "0.0", "9E+9", "-1e0", "6.02e23"];
@@ -503,7 +503,6 @@ impl<'a> PG<'a> {
     fn tname(&mut self) -> String { let s = *self.rng.pick(TYPE_NAMES); self.n(s); s.to_string() }
     /// pushes a string token, returns the value it denotes
     fn string(&mut self) -> String {
-        if self.rng.chance(1, 40) { self.constructs.push("surrogate-pair-escape"); self.t.push(Tk::Str("\"\\uD83D\\uDE00\"".into())); return "\u{1F600}".into(); }
         if self.rng.chance(1, 4) { let s = *self.rng.pick(BLOCKS); self.t.push(Tk::Block(s.into())); block_string_value(&s[3..s.len() - 3]) }
         else { let s = *self.rng.pick(STRS); self.t.push(Tk::Str(s.into())); spec_quoted_value(s) }
     }
@@ -791,7 +790,7 @@ fn mutate_tokens(rng: &mut Rng, toks: &[Tk]) -> Vec<Tk> {
 
 fn random_soup(rng: &mut Rng) -> String {
     const PIECES: &[&str] = &["{", "}", "(", ")", "[", "]", "!", "$", "@", ":", "=", "|", "&", "...", "..", ".", "query", "fragment", "on", "type", "a", "B", "1", "-", "1.", "1e", "0x1", "00", "\"", "\"s\"", "\"\"\"", "#", "# import * from \"x\"\n",
-        "#import", " ", "\n", "\r", ",", "\u{FEFF}", "é", "😀", "\\", "\"\\u00\"", "\"\\uD800\"", "\"\\u{110000}\"", "\"\\u{}\"", "\"\\q\"", "*", "true", "null", "extend", "schema", "union", "enum", "input", "directive", "implements", "-1", "1.5e+3"];
+        "#import", " ", "\n", "\r", ",", "\u{FEFF}", "é", "😀", "\\", "\"\\u00\"", "\"\\uD800\"", "\"\\uDE00\\uD83D\"", "\"\\uD83D\\uDE00\"", "\"\\uD83D\\u{DE00}\"", "\"\\u{100000000}\"", "\"\\u{000000041}\"", "\"\\u{110000}\"", "\"\\u{}\"", "\"\\q\"", "*", "true", "null", "extend", "schema", "union", "enum", "input", "directive", "implements", "-1", "1.5e+3"];
     let n = rng.range(1, 14);
     let mut s = String::new();
     for _ in 0..n { s.push_str(*rng.pick(PIECES)); if rng.chance(1, 2) { s.push(' '); } }
@@ -891,7 +890,8 @@ fn dedent(s: &str) -> String {
 // ------------------------------------------------------------------------------------------------
 
 /// corpus entries that are not documents of the language and must be rejected (Err, not Ok, not a panic)
-const MUST_FAIL: &[&str] = &["union-eq-no-members", "empty-selection", "empty-doc", "only-comment", "int-then-name", "enum-true"];
+const MUST_FAIL: &[&str] = &["surrogate-escape", "brace-escape-too-big", "brace-escape-overflow", "trailing-surrogate-alone", "reversed-surrogates", "interrupted-surrogates",
+    "surrogate-then-brace", "brace-surrogate", "nine-digit-overflow", "bad-escape-in-description", "union-eq-no-members", "empty-selection", "empty-doc", "only-comment", "int-then-name", "enum-true"];
 
 /// fixed witnesses and regression inputs, always run first
 fn corpus() -> Vec<(Kind, &'static str, &'static str, bool)> {
@@ -906,6 +906,16 @@ fn corpus() -> Vec<(Kind, &'static str, &'static str, bool)> {
         (Kind::Op, "brace-escape-too-big", "{ a(s: \"\\u{110000}\") }", false),
         (Kind::Op, "brace-escape-overflow", "{ a(s: \"\\u{FFFFFFFFF}\") }", false),
         (Kind::Op, "surrogate-pair", "{ a(s: \"\\uD83D\\uDE00\") }", true),
+        (Kind::Op, "trailing-surrogate-alone", "{ a(s: \"\\uDE00\") }", false),
+        (Kind::Op, "reversed-surrogates", "{ a(s: \"\\uDE00\\uD83D\") }", false),
+        (Kind::Op, "interrupted-surrogates", "{ a(s: \"\\uD83Dx\\uDE00\") }", false),
+        (Kind::Op, "surrogate-then-brace", "{ a(s: \"\\uD83D\\u{DE00}\") }", false),
+        (Kind::Op, "brace-surrogate", "{ a(s: \"\\u{D800}\") }", false),
+        (Kind::Op, "nine-digit-overflow", "{ a(s: \"\\u{100000000}\") }", false),
+        (Kind::Ts, "bad-escape-in-description", "\"\\uD800\" type A { \"ok\" f: Int }", false),
+        (Kind::Op, "surrogate-pairs-valid", "{ a(s: \"x\\uD83D\\uDE00y\\uDBFF\\uDFFF\") }", true),
+        (Kind::Op, "nine-digit-leading-zeros", "{ a(s: \"\\u{000000041}\") }", true),
+        (Kind::Ts, "surrogate-pair-description", "\"\\uD83D\\uDE00\" type A { f(a: String = \"\\uD83D\\uDE00\"): Int }", true),
         (Kind::Op, "brace-escape-ok", "{ a(s: \"\\u{1F600}\\u{41}\") }", true),
         (Kind::Op, "block-string-raw", "{ a(s: \"\"\"\n    hello\n      world\n  \"\"\") }", true),
         (Kind::Op, "block-string-escape", "{ a(s: \"\"\"x \\\"\"\" y\"\"\") }", true),
@@ -1005,7 +1015,6 @@ impl Ctx {
         if let Some(fl) = extra.get("constructs").and_then(|v| v.as_array()) {
             for f in fl {
                 match (f.as_str().unwrap_or(""), outcome.as_str()) {
-                    ("surrogate-pair-escape", "panic1") => spec_classes.push("surrogate-pair-escape-panics".into()),
                     _ => {}
                 }
             }
@@ -1043,7 +1052,6 @@ fn main() {
     // 0. corpus
     for (kind, name, text, in_lang) in corpus() {
         let constructs: Vec<&str> = match name {
-            "surrogate-pair" => vec!["surrogate-pair-escape"],
             _ => vec![],
         };
         cx.add(kind, text, "corpus", 0, None, if MUST_FAIL.contains(&name) { 2 } else if in_lang { 1 } else { 0 }, None, json!({"corpus": name, "constructs": constructs}));
